@@ -156,6 +156,10 @@ pub fn table(thorough: bool) -> Vec<LibEntry> {
     t.push(entry!(sd "prim" 0 isize, [-1, 1 << 40], gen [], name "number"));
     t.push(entry!(sd "prim" 0 f32, [0.0, -1.5, 3.0e30], gen [], name "number"));
     t.push(entry!(sd "prim" 0 f64, [0.0, -1.5, 3.0e300], gen [], name "number"));
+    // the values JSON has no spelling for: serde_json writes `null` (known finding)
+    t.push(entry!(s "non-finite-float" 0 f64, [f64::NAN, f64::INFINITY, f64::NEG_INFINITY], gen [], name "number"));
+    t.push(entry!(s "non-finite-float" 0 f32, [f32::NAN], gen [], name "number"));
+    t.push(entry!(s "non-finite-float" 1 Vec<f64>, [vec![1.0, f64::NAN]], gen []));
     t.push(entry!(sd "prim" 0 bool, [true, false], gen [], name "boolean"));
     t.push(entry!(sd "prim" 0 char, ['a', 'é', '"'], gen [], name "string"));
     t.push(entry!(sd "prim" 0 String, [String::new(), "x\"y".to_string()], gen [], name "string"));
